@@ -280,6 +280,44 @@ class SecNode:
         for name in self._getSortedModules():
             self.modules[name].shutdownModule()
 
+    def _attached_names(self, modobj):
+        """names of the modules <modobj> is attached to"""
+        # attachedModules is filled on first access only: a module touching its
+        # attachment late (in shutdownModule) or never must be shut down first, too
+        names = [m.name for m in modobj.attachedModules.values()]
+        for pname, prop in modobj.propertyDict.items():
+            if hasattr(prop, 'basecls'):  # an Attached property
+                attached = modobj.propertyValues.get(pname)
+                if attached in self.modules and attached not in names:
+                    names.append(attached)
+        return names
+
+    def check_attachments(self):
+        """a cycle in the attachments is a configuration error
+
+        (there is no order to shut such modules down)
+        """
+        state = {}  # name -> 'visiting' or 'done'
+
+        def visit(name, path):
+            if state.get(name) == 'done':
+                return None
+            if state.get(name) == 'visiting':
+                return path[path.index(name):] + [name]
+            state[name] = 'visiting'
+            for attached in self._attached_names(self.modules[name]):
+                cycle = visit(attached, path + [name])
+                if cycle:
+                    return cycle
+            state[name] = 'done'
+            return None
+
+        for name in self.modules:
+            cycle = visit(name, [])
+            if cycle:
+                self.errors.append(f"cyclic attachment: {' -> '.join(cycle)}")
+                return
+
     def _getSortedModules(self):
         """Sort modules topologically by inverse dependency.
 
@@ -289,16 +327,7 @@ class SecNode:
         the unvisited nodes to be dismantled at the end.
         Taken from Introduction to Algorithms [CLRS].
         """
-        def attached_names(modobj):
-            # attachedModules is filled on first access only: a module touching its
-            # attachment late (in shutdownModule) or never must be shut down first, too
-            names = [m.name for m in modobj.attachedModules.values()]
-            for pname, prop in modobj.propertyDict.items():
-                if hasattr(prop, 'basecls'):  # an Attached property
-                    attached = modobj.propertyValues.get(pname)
-                    if attached in self.modules and attached not in names:
-                        names.append(attached)
-            return names
+        attached_names = self._attached_names
 
         def go(name):
             if name in done:  # visiting a node
